@@ -311,6 +311,9 @@ var _ kube.InterfaceDeletionPropagation = (*symKube)(nil)
 func stubHelperGet(h *resource.Helper, namespace, name string) (runtime.Object, error) {
 	k := theKube
 	k.note(false, "Get %s/%s", namespace, name)
+	if k.faults.fail("kube.Get") { // the cluster rejects the read of the ownership check
+		return nil, apierrors.NewForbidden(schema.GroupResource{Resource: h.Resource}, name, fmt.Errorf("injected"))
+	}
 	for key, o := range k.cluster {
 		if key.ns == namespace && key.name == name && strings.EqualFold(pluralOf(key.kind), h.Resource) {
 			return o.DeepCopyObject(), nil
@@ -583,6 +586,10 @@ func nativeRESTClient(k *symKube) resource.RESTClient {
 			header := http.Header{}
 			header.Set("Content-Type", runtime.ContentTypeJSON)
 			k.note(false, "Get %s", req.URL.Path)
+			if k.faults.fail("kube.Get") {
+				st := `{"kind":"Status","apiVersion":"v1","status":"Failure","message":"injected","reason":"Forbidden","code":403}`
+				return &http.Response{StatusCode: http.StatusForbidden, Header: header, Body: io.NopCloser(strings.NewReader(st))}, nil
+			}
 			if len(parts) >= 4 && parts[len(parts)-4] == "namespaces" {
 				ns, res, name := parts[len(parts)-3], parts[len(parts)-2], parts[len(parts)-1]
 				for key, o := range k.cluster {
